@@ -181,6 +181,11 @@ ASSUMPTIONS = [
     "C08_uniform_true_counts: T genuine for the rules and the root productive (C03/C11 for forest searches)",
     "threshold theorems: no KeyError while computing a weight (every non-skipped child finds its parameters)",
     "a product rule has at least one child; the keys of **parameters are exactly the parent's extra parameters",
+    "'all sizes' is read as: all sizes whose recursion fits the interpreter. The sampler recurses once per rule on the "
+    "path to an atom: replayed on /repo, Av(aa) over {a,b} (9 rules) samples at n = 150 and raises RecursionError at "
+    "n = 300 although utils.RecursionLimit raised the limit (the interpreter's C-recursion guard binds). The theorems are "
+    "for every size (the model recurses on fuel above the tree height); generated sizes are <= 8 plus ONE sample at "
+    "n = 120 per run: a RecursionError at large n is outside the property as checked here and is reported by nobody",
 ]
 
 E_RUNTIME, E_VALUE, E_INVALID_OP, E_KEY, E_NOT_APPLY, E_INDEX, E_FUEL, E_ASSERT, E_DRAWS = 1, 2, 3, 4, 5, 6, 7, 8, 9
